@@ -428,11 +428,21 @@ pub fn run(ctx: &mut Ctx) {
             last_was_invoke = false;
             version += 1;
             clock += 1;
+            // now and then a file is replaced by an OLDER copy: its modification time goes backwards
+            // (to a value it does not have now - a content change still comes with an mtime change)
+            let mut stamp = |rng: &mut Rng, name: &str, ctx: &mut Ctx| -> i64 {
+                let cur = ops.iter().rev().find_map(|o| match o { Op::W(n, m, _) if n == name => Some(*m), _ => None });
+                if clock > 3 && rng.chance(1, 6) {
+                    let t = 1 + rng.below((clock - 1) as usize) as i64;
+                    if Some(t) != cur { ctx.count("edits_with_older_mtime"); return t; }
+                }
+                clock
+            };
             if r < 55 {
                 if has_p0 && rng.chance(1, 5) { ops.push(Op::W("p0".into(), clock, format!("cache v{}", version).into_bytes())); }
-                else { let i = rng.below(NSRC); ops.push(Op::W(format!("s{}", i), clock, src_content(&mut rng, version))); }
+                else { let i = rng.below(NSRC); let n = format!("s{}", i); let t = stamp(&mut rng, &n, ctx); ops.push(Op::W(n, t, src_content(&mut rng, version))); }
             }
-            else if r < 62 { let i = rng.below(NHDR); ops.push(Op::W(format!("h{}", i), clock, format!("hdr{}v{}", i, version).into_bytes())); }
+            else if r < 62 { let i = rng.below(NHDR); let n = format!("h{}", i); let t = stamp(&mut rng, &n, ctx); ops.push(Op::W(n, t, format!("hdr{}v{}", i, version).into_bytes())); }
             else if r < 66 {
                 // prefer a header that some step also names as an order-only input (a discovered
                 // dependency that is an ordering input as well must still only make the step dirty)
